@@ -200,7 +200,7 @@ with unit_ (fuel : nat) (e : expr) (st : state) {struct fuel} : R obj :=
       match e with
       | ELit (Some a) bs =>
           if 255 <? zlen bs then errR st 15
-          else if var_start c <=? a then (st, Host host_Other)     (* not a program literal: never printed *)
+          else if (var_start c <=? a) || (a <? code_start c) then (st, Host host_Other)     (* not a program literal: never printed *)
           else retR st (OStr (zlen bs, a))
       | ELit None bs => doR (st1, p) <- store c st bs; retR st1 (OStr p)
       | ENum t z => retR st (ONum t z)
@@ -502,7 +502,7 @@ Definition exec (fuel : nat) (direct : bool) (s : stmt) (st : state) : R unit :=
               let st4 := write_obj st3 v target in
               let v' := match v with OStr _ => OStr target | _ => v end in
               doR (st5, _) <-
-                (if len =? 0 then retR st4 tt
+                (if len <=? 0 then retR st4 tt
                  else if var_start c <=? snd target then
                    match lookup (snd target) (strs st4) with
                    | Some old => if zlen old =? len then retR (set_binding st4 (snd target) inb) tt
